@@ -564,7 +564,11 @@ class Engine(TorchDispatchMode):
     def write(self, dst, src):
         with no_mode():
             di = dst.idx.reshape(-1).tolist()
-            si = src.idx.expand(dst.shape).reshape(-1).tolist()
+            try:
+                si = src.idx.expand(dst.shape).reshape(-1).tolist()
+            except RuntimeError:
+                # torch: "output with shape [...] doesn't match the broadcast shape [...]" - the library's in-place update is ill-shaped
+                raise LibraryRaise(f"in-place update: result of shape {tuple(src.shape)} does not fit the output of shape {tuple(dst.shape)}")
         new = [s_cast(HEAP[s], dst.dtype) for s in si]
         for d, v in zip(di, new):
             HEAP[d] = v
